@@ -598,6 +598,7 @@ func (s *seamState) idleChildren() bool {
 	if nw == 0 {
 		return false
 	}
+	grace := 0
 	for tries := 0; tries < 8000; tries++ {
 		s.mu.Lock()
 		// prefer data on pipes over child exits so that output is read before the close
@@ -620,9 +621,13 @@ func (s *seamState) idleChildren() bool {
 		nchild := len(s.childWaiters)
 		s.mu.Unlock()
 		if nchild == 0 {
-			// every child has exited and been reaped by its waiter; a pipe that is still not ready
-			// never will be: a genuine deadlock of the system under test
-			return false
+			// every direct child has exited and been reaped by its waiter. A pipe that is still not ready
+			// may be held by a grandchild (sh -c 'cmd & ...') for a moment longer: allow a grace period
+			// of real time before calling it a deadlock of the system under test
+			grace++
+			if grace > 1500 {
+				return false
+			}
 		}
 		s.childPolls++
 		ts := syscall.Timespec{Sec: 0, Nsec: 1000000}
